@@ -368,6 +368,16 @@ pub fn check_c04(prog: &Prog, m: &dyn DynModel, rng: &mut Rng) -> Result<C04Stat
                 if got != want {
                     return Err(("enum-cases".into(), format!("{}_cases({el}) = {:?} but the constructor graphs say {:?}", p.sort_snake(s), got, want)));
                 }
+                // invariant under replacing the argument by an equal element
+                for alt in &members[s][&el] {
+                    let got_alt: BTreeSet<(usize, Vec<u32>)> = m.enum_cases(s, *alt).into_iter().collect();
+                    if got_alt != want {
+                        return Err((
+                            "enum-cases".into(),
+                            format!("{}_cases({alt}) = {:?} but for the equal element {el} it is {:?}", p.sort_snake(s), got_alt, want),
+                        ));
+                    }
+                }
             }
         }
     }
@@ -380,7 +390,9 @@ pub fn check_c15(prog: &Prog, m: &dyn DynModel, closed: bool) -> Result<usize, F
     let mut checked = 0;
     for (s, sort) in p.sorts.iter().enumerate() {
         if let SortKind::Enum(_) = &sort.kind {
-            for el in m.iter_sort(s) {
+            // every id ever handed out, not only the current representatives: a handle that lost a
+            // merge is still an element of the enum type
+            for el in 0..m.n_ids(s) as u32 {
                 checked += 1;
                 let cases = m.enum_cases(s, el);
                 if cases.is_empty() {
